@@ -35,6 +35,7 @@ def check(run):
     _cx(run, cx)
     _be(run, be)
     _plasma(run, pl)
+    run.include('C01', set(FILES), 'the cached receiver species, rates and populations must follow changes of the plasma composition')
 
 
 def _m(ci, name):
